@@ -33,8 +33,9 @@ ALTS = {
 HEXCH = set('0123456789abcdefABCDEF')
 
 
-def esc_hex(c, six=False):
-    return ('\\%06x' % ord(c)) if six else ('\\%x ' % ord(c))
+def esc_hex(c, six=False, upper=False):
+    s = ('\\%06x' % ord(c)) if six else ('\\%x ' % ord(c))
+    return s.upper() if upper else s
 
 
 def ident_alts(v, ci):
@@ -51,6 +52,8 @@ def ident_alts(v, ci):
         cs = [serialize_ident('x' + c)[1:] for c in chars]
         if how == 'hex':
             cs[i] = esc_hex(chars[i])
+        elif how == 'HEX':
+            cs[i] = esc_hex(chars[i], upper=True)
         elif how == 'six':
             cs[i] = esc_hex(chars[i], True)
         elif how == 'bs':
@@ -68,6 +71,7 @@ def ident_alts(v, ci):
         if i != 0 and not first_safe:
             continue
         out.append(sp(i, 'hex'))
+        out.append(sp(i, 'HEX'))
         if i != len(chars) - 1:
             # a six-digit escape still swallows one following whitespace, so it is only safe before another identifier character
             out.append(sp(i, 'six'))
@@ -96,9 +100,12 @@ def string_alts(v):
         out.append(serialize_ident(v))
         if not (v[0].isdigit() or v[0] == '-'):
             out.append(esc_hex(v[0]) + serialize_ident('x' + v[1:])[1:])
+            out.append(esc_hex(v[0], upper=True) + serialize_ident('x' + v[1:])[1:])
+            out.append(serialize_ident(v[:-1]) + esc_hex(v[-1], upper=True) if len(v) > 1 else esc_hex(v[0], upper=True))
     if v:
         body = S.css_string(v)[1:-1]
         out.append('"' + esc_hex(v[0]) + S.css_string(v[1:])[1:-1] + '"')
+        out.append('"' + esc_hex(v[0], upper=True) + S.css_string(v[1:])[1:-1] + '"')
         out.append('"\\\n' + body + '"')
         mid = len(v) // 2
         out.append('"' + S.css_string(v[:mid])[1:-1] + '\\\r\n' + S.css_string(v[mid:])[1:-1] + '"')
@@ -308,7 +315,8 @@ def bases(tier):
            ('nth', 'child', 2, 1, None, 'odd'), ('nth', 'child', 3, -2, (S.cx(a), S.cx(S.cp(None, cls))),), ('nth', 'last-child', 1, 0, (S.cx(a, '>', b),)),
            ('nth', 'child', -2, 0, None), ('nth', 'of-type', 1, 10, None)]
     simple += [S.cp(None, n) for n in nth]
-    simple += [S.cp(None, ('lang', ('en',))), S.cp(None, ('lang', ('de-DE', '*-x', ''))), S.cp(None, ('dir', 'ltr')), S.cp(S.T('p'), ('dir', 'rtl')),
+    simple += [S.cp(None, ('lang', ('Lx', 'zo-Lj'))), S.cp(None, ('contains', False, ('Lx', 'oz'))), S.cp(None, ('attr', None, 'Lk', '=', 'zoL', None)), S.cp(S.T('jz'), ('class', 'oL')),
+               S.cp(None, ('lang', ('en',))), S.cp(None, ('lang', ('de-DE', '*-x', ''))), S.cp(None, ('dir', 'ltr')), S.cp(S.T('p'), ('dir', 'rtl')),
                S.cp(None, ('contains', False, ('x y', 'z'))), S.cp(None, ('contains', True, ('a"b',))), S.cp(None, ('contains', False, ('fr',)), ('lang', ('en', 'fr')))]
     simple += [S.cp(None, ('class', 'x ')), S.cp(None, ('id', 'a b')), S.cp(None, ('id', ' lead')), S.cp(S.T('t '), ('class', 'end\t')),
                S.cp(None, ('class', 'nb\xa0')), S.cp(None, ('attr', None, 'k ', '=', 'v ', None)), S.cp(None, ('id', 'q"')), S.cp(None, ('class', "o'"))]
